@@ -229,6 +229,20 @@ def explore(cfg, judge, mode="pruned", max_dev=2, max_execs=200000, max_wall=360
         t.join()
     st.wall = time.time() - t_start
     if machinery:
+        # Is the subject itself nondeterministic under a FIXED schedule? Then stdout is not a function of
+        # inputs, options and schedule: that is a verdict (if stdout differs), not a machinery problem.
+        outs = {}
+        for _ in range(6):
+            x = cfg.run([])
+            outs.setdefault(x.out, x)
+        if len(outs) > 1:
+            xs = list(outs.values())
+            v = judge(xs[0]) or judge(xs[1]) or ({"symptom": "stdout-differs"}, "stdout differs")
+            feats = dict(v[0], nondeterministic_under_fixed_schedule=True)
+            violations.append((feats, "the default schedule, run 6 times with identical inputs, produced %d different stdouts (%s)" % (len(outs), v[1]), []))
+            st.exhausted = False
+            st.cap = "exploration abandoned: subject nondeterministic under a fixed schedule"
+            return st, violations
         raise common.MachineryError("E-SCHED %s: %s" % (cfg.name, machinery[0]))
     if stack and st.exhausted:
         st.exhausted = False
